@@ -17,9 +17,10 @@ EXPLANATION = (
     'uninterpreted CAST_t. z3 decides for an arbitrary index i that y[i] equals the documented recurrence computed in '
     'float64 and cast back, that the noise term is coeff * nu(i) with nu independent of the signal, and that the input '
     'store is never written unless in_place on a float64 array (inputs are read-only in the harness).')
-BOUNDS = {'quick': 'any length N >= 0 (symbolic), any real coeff, dtypes float64/float32/int16, in_place True/False', 'thorough': 'same'}
+BOUNDS = {'quick': 'any length N >= 0 (symbolic), any real coeff, dtypes float64/float32/int16, in_place True/False; explicit axis: shapes (2,3) (3,2,2) (2,2,3) (2,3,2,2), every axis incl. negative, coeff 0.75',
+          'thorough': 'same; 8 shapes up to rank 4 for the explicit axis'}
 OUTSIDE = ['distribution of the noise (zero mean, standard deviation coeff): statistical statement about NumPy\'s / torch\'s generator',
-           'deprecated axis argument', 'value of float64 rounding itself']
+           'the deprecated axis argument of Dither (Preemphasize along an explicit axis is checked on fixed small shapes, object-array mode)', 'value of float64 rounding itself']
 ASSUMPTIONS = ['np.random.normal(0, c, shape)[i] == c * nu(rng_state, i) with nu a function of the generator state and the index only (documented scale family); same state => same nu',
                'torch.randn_like(sig)[i] == nu(i); astype(float64) of float32/int16 is exact',
                'NumPy promotion: float32 array (op) python float -> float32 (rounded); int16 array (op) python float -> float64']
@@ -82,6 +83,9 @@ def configs(tier, seed):
         for inp in (False, True):
             cfgs.append(dict(kind='preemph', name='preemphasize %s in_place=%s' % (dt, inp), dt=dt, in_place=inp))
             cfgs.append(dict(kind='dither', name='dither %s in_place=%s' % (dt, inp), dt=dt, in_place=inp))
+    shapes = [(2, 3), (3, 2, 2), (2, 2, 3), (2, 3, 2, 2)] if tier == 'quick' else [(2, 3), (3, 2), (3, 2, 2), (2, 2, 3), (2, 3, 2), (4, 4, 4), (2, 3, 2, 2), (2, 2, 2, 3)]
+    for shp in shapes:
+        cfgs.append(dict(kind='preemph_axis', name='preemphasize along every axis of %s' % (shp,), shape=list(shp)))
     cfgs.append(dict(kind='torch_pre', name='torch preemphasize'))
     cfgs.append(dict(kind='torch_dither', name='torch dither'))
     return cfgs
@@ -255,7 +259,74 @@ def run_torch(cfg):
     return dict(obligations=ob, discharged=dis, violations=viol, samples=[{'config': cfg['name'], 'obligation': 'forall N, i<N: out[i] == spec(i)'}], twin=dis > 0)
 
 
+def run_axis(cfg):
+    """Preemphasize.apply along an explicit axis of a higher-rank array: real NumPy object arrays of z3 terms (object-array
+    mode), so every moveaxis / view / in-place slice assignment is NumPy's own; element terms are compared with
+    x[idx] - coeff * x[idx - e_axis] for every index, and the aliasing contract (input untouched unless in_place on
+    float64, then overwritten with the same values) on the raw cells."""
+    import warnings
+    import numpy as np
+    from checks.objarr import Sym, sym, NPProxy, rq
+    ns = loader.load_unit('pre', dict(np=NPProxy()), name='pre_axis_under_test')
+    shape = tuple(cfg['shape'])
+    r = len(shape)
+    viol = []
+    ob = dis = 0
+    co = 0.75
+    for axis in [None] + list(range(-r, r)):
+        for dt in ('f8', 'f4'):
+            for ip in (False, True):
+                ob += 1
+                a = sym(shape, ld=dt)
+                before = a.raw().copy()
+                base = dict(kind='preemph_axis', shape=list(shape), axis=axis, dt=dt, in_place=ip)
+                try:
+                    with warnings.catch_warnings():
+                        warnings.simplefilter('ignore')
+                        out = ns['Preemphasize'](co).apply(a, axis=axis, in_place=ip) if axis is not None else ns['Preemphasize'](co).apply(a, in_place=ip)
+                except Exception as e:
+                    symex.guard(e)
+                    viol.append(dict(base, what='exception %s: %s' % (type(e).__name__, e)))
+                    continue
+                ax = (r - 1) if axis is None else axis % r
+                if not isinstance(out, np.ndarray) or out.shape != shape:
+                    viol.append(dict(base, what='result shape %s' % (getattr(out, 'shape', None),)))
+                    continue
+                if np.dtype(out.dtype) != np.dtype(dt):
+                    viol.append(dict(base, what='result dtype %s' % out.dtype))
+                    continue
+                oraw = out.raw() if isinstance(out, Sym) else np.asarray(out, dtype=object)
+                bad = None
+                for idx in np.ndindex(*shape):
+                    want = rq(before[idx])
+                    if idx[ax] > 0:
+                        prev = list(idx)
+                        prev[ax] -= 1
+                        want = want - rq(co) * rq(before[tuple(prev)])
+                    if not z3.simplify(rq(oraw[idx]) - want).eq(z3.RealVal(0)) and not z3.is_true(z3.simplify(rq(oraw[idx]) == want)):
+                        s_ = z3.Solver()
+                        s_.add(rq(oraw[idx]) != want)
+                        if check_sat(s_) == 'sat':
+                            bad = idx
+                            break
+                if bad is not None:
+                    viol.append(dict(base, what='value at %s' % (bad,)))
+                    continue
+                araw = a.raw()
+                changed = any(araw[idx] is not before[idx] for idx in np.ndindex(*shape))
+                if changed and not (ip and dt == 'f8'):
+                    viol.append(dict(base, what='input modified'))
+                    continue
+                dis += 1
+    for w in viol:
+        w['class'] = 'preemph_axis/%s/%s' % (w['what'].split()[0], 'last' if w['axis'] in (None, -1, r - 1) else 'inner')
+    return dict(obligations=ob, discharged=dis, violations=viol, twin=dis > 0,
+                samples=[{'config': cfg['name'], 'obligation': 'forall element values: out[idx] == x[idx] - c x[idx - e_axis], every axis (negative too), float64/float32, in_place both ways'}])
+
+
 def run_config(cfg):
+    if cfg['kind'] == 'preemph_axis':
+        return run_axis(cfg)
     if cfg['kind'] in ('preemph', 'dither'):
         return run_np(cfg)
     return run_torch(cfg)
@@ -277,6 +348,29 @@ def replay(w):
     coeffs = [_coeff(w), 0.0, 0.97, 1.0, 2.5]
     Ns = sorted(set([w.get('N', 5), 0, 1, 2, 7]))
     rng = np.random.RandomState(1)
+    if k == 'preemph_axis':
+        import warnings
+        shape, axis = tuple(w['shape']), w['axis']
+        dt = dtn[w['dt']]
+        xs = (rng.randn(*shape) * 10).astype(dt)
+        orig = xs.copy()
+        try:
+            with warnings.catch_warnings():
+                warnings.simplefilter('ignore')
+                got = Preemphasize(0.75).apply(xs, axis=axis, in_place=w['in_place']) if axis is not None else Preemphasize(0.75).apply(xs, in_place=w['in_place'])
+        except Exception as e:
+            return {'reproduced': True, 'detail': 'Preemphasize.apply(shape %s, axis=%s) raised %s: %s' % (shape, axis, type(e).__name__, e)}
+        ax = len(shape) - 1 if axis is None else axis % len(shape)
+        o64 = np.moveaxis(orig.astype(np.float64), ax, -1)
+        want = o64.copy()
+        want[..., 1:] = o64[..., 1:] - 0.75 * o64[..., :-1]
+        want = np.moveaxis(want, -1, ax).astype(dt)
+        if got.shape != want.shape or got.dtype != want.dtype or not np.array_equal(got, want):
+            return {'reproduced': True, 'detail': 'Preemphasize.apply on a %s array of shape %s along axis %s: %s' % (
+                w['dt'], shape, axis, 'shape %s instead of %s' % (got.shape, want.shape) if got.shape != want.shape else 'values differ from x[i] - c x[i-1] along that axis')}
+        if not (w['in_place'] and dt == np.float64) and not np.array_equal(xs, orig):
+            return {'reproduced': True, 'detail': 'input modified'}
+        return {'reproduced': False, 'detail': 'matches'}
     if k in ('torch_pre', 'torch_dither'):
         import torch
         from pydrobert.speech.torch import pytorch_preemphasize, pytorch_dither
